@@ -125,3 +125,26 @@ Example laws_nonvacuous :
   /\ model_filter (with_mode c true) (V4 1) (V4 2) 1000 443 = false
   /\ model_filter (with_mode c false) (V4 1) (V4 2) 1000 443 = true.
 Proof. vm_compute. repeat split. Qed.
+
+(* CIDR nesting: a shorter prefix of the same network contains whatever the longer one contains *)
+Lemma cidr_nesting w n p q x :
+  p <= q -> q <= w -> x < 2 ^ w -> n < 2 ^ w ->
+  net_contains w (n, q) x = true -> net_contains w (n, p) x = true.
+Proof.
+  intros Hpq Hqw Hx Hn. rewrite !net_contains_spec by lia. unfold in_cidr.
+  rewrite !N.eqb_eq. intros E.
+  replace (w - p) with ((w - q) + (q - p)) by lia.
+  rewrite N.pow_add_r, <- !N.div_div by (apply N.pow_nonzero; lia).
+  now rewrite E.
+Qed.
+
+(* allow-listing one more address never rejects a pair the address filter already matched *)
+Lemma ip_filter_monotone ops a src dst :
+  if_matches (build_ip ops) src dst = true -> if_matches (build_ip (ops ++ [IAllow a])) src dst = true.
+Proof.
+  rewrite !ip_model_spec. unfold ip_spec, ip_sides, addr_listed.
+  rewrite fold_left_app, !existsb_app. cbn [fold_left existsb].
+  destruct (src_enabled _), (dst_enabled _); cbn [andb orb];
+  repeat match goal with |- context [existsb ?f ops] => destruct (existsb f ops) end;
+  cbn [orb]; intros H; try discriminate; try reflexivity; btauto.
+Qed.
